@@ -3,7 +3,7 @@
     [Print Assumptions]. *)
 From Coq Require Import List ZArith.
 From Webp Require Import Base.Res Vp8l.Vp8lPixel Vp8l.Vp8lArr Vp8l.Vp8lPrefix Vp8l.Vp8lTransforms Vp8l.Vp8lSpec
-  Vp8l.Vp8lCanon Vp8l.Vp8lLut Vp8l.Vp8lLut2 Vp8l.Vp8lEmit Vp8l.Vp8lEntropy Vp8l.Vp8lCodeLens Vp8l.Vp8lEmitDecode Vp8l.Vp8lWf Vp8l.Vp8lInPlace Vp8l.Vp8lKernels Vp8l.Vp8lTables Vp8l.Vp8lCacheDefer.
+  Vp8l.Vp8lCanon Vp8l.Vp8lLut Vp8l.Vp8lLut2 Vp8l.Vp8lBitReader Vp8l.Vp8lBitReaderProof Vp8l.Vp8lEmit Vp8l.Vp8lEntropy Vp8l.Vp8lCodeLens Vp8l.Vp8lEmitDecode Vp8l.Vp8lWf Vp8l.Vp8lInPlace Vp8l.Vp8lKernels Vp8l.Vp8lTables Vp8l.Vp8lCacheDefer.
 From WebpGen Require Consts Tables.
 Import ListNotations.
 Open Scope Z_scope.
@@ -93,6 +93,28 @@ Theorem C03_read_put_bits : forall n v rest, 0 <= v < 2 ^ Z.of_nat n ->
   read_bits n (put_bits n v ++ rest) = Ok (v, rest).
 Proof. exact read_put_bits. Qed.
 Print Assumptions C03_read_put_bits.
+
+(** Implementation model of the 64-bit window bit reader (LosslessReader: window,
+    byte shifting after every read, sticky end-of-stream flag) vs the bit-list
+    reader of the specification: for every byte string and every sequence of
+    ReadBits(n), 0 <= n <= 24, that stays inside the data, the values are exactly
+    the specification's and the flag stays clear.  Partial: FillBitWindow /
+    PrefetchBits / SetBitPos (the symbol decoder's path) are in the model and in the
+    correspondence runs but not in this theorem. *)
+Theorem C03_bitreader_window_refines_partial : forall data ns,
+  bytes_ok data -> Forall (fun n => 0 <= n <= 24) ns -> total ns <= 8 * Z.of_nat (length data) ->
+  br_run ns (br_new data) = map (fun v => (v, false)) (spec_reads ns (bits_of_bytes data)).
+Proof. exact bitreader_window_refines. Qed.
+Print Assumptions C03_bitreader_window_refines_partial.
+
+(** The read that crosses the end of a buffer of at least 8 bytes raises the
+    end-of-stream flag (shorter buffers: only beyond bit 64, as the code tests
+    bitPos > 64). *)
+Theorem C03_read_past_end_sets_eos : forall data, bytes_ok data -> 8 <= Z.of_nat (length data) ->
+  forall r p n, inv data r p -> 0 <= n <= 24 -> 8 * Z.of_nat (length data) < p + n ->
+  br_is_eos (snd (br_read_bits n r)) = true.
+Proof. exact read_past_end_sets_eos. Qed.
+Print Assumptions C03_read_past_end_sets_eos.
 
 (** Canonical prefix codes: for every length vector the decoder accepts (one used
     symbol, or Kraft-complete with lengths <= 15; both simple-code shapes are
